@@ -1,7 +1,9 @@
 package main
 
 import (
+	"fmt"
 	"strconv"
+	"unsafe"
 
 	"github.com/segmentio/encoding/ascii"
 )
@@ -73,6 +75,81 @@ func init() {
 		s, t := unhx(a[0]), unhx(a[1])
 		return both(ascii.HasSuffixFold(s, t), ascii.HasSuffixFoldString(string(s), string(t))), b01(defHasSuffixFold(s, t)), ""
 	}
+	// ascii.reuse <len> <seed>: the predicates are functions of the CONTENT: one buffer is checked, overwritten in place
+	// (one byte made offending / foldable / restored, several rounds), and checked again — as bytes and as an unsafe
+	// string view of the same memory; every answer must equal the byte-wise definition on the content at that moment
+	ops["ascii.reuse"] = func(a []string) (string, string, string) {
+		n, _ := strconv.Atoi(a[0])
+		seed, _ := strconv.ParseUint(a[1], 10, 64)
+		rnd := func() uint64 {
+			seed += 0x9e3779b97f4a7c15
+			z := seed
+			z = (z ^ (z >> 30)) * 0xbf58476d1ce4e5b9
+			z = (z ^ (z >> 27)) * 0x94d049bb133111eb
+			return z ^ (z >> 31)
+		}
+		buf := make([]byte, n)
+		other := make([]byte, n)
+		for i := range buf {
+			buf[i] = "abcXYZ09_ ~"[rnd()%11]
+			other[i] = buf[i]
+		}
+		view := func(b []byte) string {
+			if len(b) == 0 {
+				return ""
+			}
+			return unsafe.String(unsafe.SliceData(b), len(b))
+		}
+		check := func(round int) string {
+			if r, d := ascii.Valid(buf), defValid(buf); r != d {
+				return fmt.Sprintf("valid-bytes round=%d got=%v", round, r)
+			}
+			if r, d := ascii.ValidString(view(buf)), defValid(buf); r != d {
+				return fmt.Sprintf("valid-string round=%d got=%v", round, r)
+			}
+			if r, d := ascii.ValidPrint(buf), defValidPrint(buf); r != d {
+				return fmt.Sprintf("validprint-bytes round=%d got=%v", round, r)
+			}
+			if r, d := ascii.ValidPrintString(view(buf)), defValidPrint(buf); r != d {
+				return fmt.Sprintf("validprint-string round=%d got=%v", round, r)
+			}
+			if r, d := ascii.EqualFold(buf, other), defEqualFold(buf, other); r != d {
+				return fmt.Sprintf("equalfold-bytes round=%d got=%v", round, r)
+			}
+			if r, d := ascii.EqualFoldString(view(buf), view(other)), defEqualFold(buf, other); r != d {
+				return fmt.Sprintf("equalfold-string round=%d got=%v", round, r)
+			}
+			if r, d := ascii.HasPrefixFold(buf, other[:n/2]), defHasPrefixFold(buf, other[:n/2]); r != d {
+				return fmt.Sprintf("hasprefixfold round=%d got=%v", round, r)
+			}
+			if r, d := ascii.HasSuffixFold(buf, other[n/2:]), defHasSuffixFold(buf, other[n/2:]); r != d {
+				return fmt.Sprintf("hassuffixfold round=%d got=%v", round, r)
+			}
+			return ""
+		}
+		if v := check(0); v != "" {
+			return v, "ok", ""
+		}
+		if n == 0 {
+			return "ok", "ok", ""
+		}
+		bad := []byte{0x80, 0xff, 0x00, 0x1f, 0x7f, '@', '[', '`', '{', 'A', 'a', 'Z', 'z'}
+		for round := 1; round <= 8; round++ {
+			i := int(rnd() % uint64(n))
+			old := buf[i]
+			buf[i] = bad[rnd()%uint64(len(bad))]
+			if v := check(round); v != "" {
+				return v, "ok", ""
+			}
+			if round%2 == 0 {
+				buf[i] = old // restored: the answer must come back too
+				if v := check(round); v != "" {
+					return v + " (restored)", "ok", ""
+				}
+			}
+		}
+		return "ok", "ok", ""
+	}
 	// ascii.foldalias <hex buffer> <i> <j> <a> <b>: both operands are views of ONE buffer (s = buf[i:j], t = buf[a:b]), as bytes
 	// and as substrings of one string: identity or address shortcuts must not change any answer
 	ops["ascii.foldalias"] = func(a []string) (string, string, string) {
@@ -108,6 +185,16 @@ func init() {
 
 func runC20(h *H) {
 	runC20Asm(h) // the assembly kernels against the Lean model of the assembly (c20asm.go)
+	// one buffer checked, overwritten in place and checked again (lengths around every block size)
+	for _, n := range []int{0, 1, 3, 7, 8, 9, 15, 16, 17, 31, 32, 33, 47, 63, 64, 65, 72, 100, 127, 128, 129, 200, 255, 256, 257, 1000, 4096} {
+		reps := 6
+		if h.Thorough() {
+			reps = 60
+		}
+		for k := 0; k < reps; k++ {
+			h.Do("ascii.reuse", strconv.Itoa(n), strconv.FormatUint(h.U64(), 10))
+		}
+	}
 	// aliased operands: views of one buffer made of a short pattern repeated with case flips (so that overlapping views
 	// are sometimes equal under folding and sometimes not)
 	NA := 1500
